@@ -1,59 +1,23 @@
 /-
   Proof of the translation tie for `ShmReader::new` (with `FdGuard::new`, `MmapGuard::new`, `ShmHeader::read`
-  inlined): statement in `Properties/CodeTieHeader.lean`.
+  inlined): statement in `Properties/CodeTieHeader.lean`.  One file per class of path state
+  (`RsReaderNewA/B/C.lean`), assembled here.
 -/
-import ClockBound.Proofs.RsHeader
+import ClockBound.Proofs.RsReaderNewB
+import ClockBound.Proofs.RsReaderNewC
 namespace ClockBound.Rs.HeaderProof
 open ClockBound ClockBound.Rs ClockBound.Generated ClockBound.Rs.DictShm ClockBound.Rs.EmbedShm
 
-@[simp] theorem noLog_ok (v s : Value) (l : List Value) : (Outcome.ok v s l).noLog = .ok v s [] := rfl
-@[simp] theorem noLog_ite (c : Prop) [Decidable c] (a b : Outcome) :
-    (if c then a else b).noLog = if c then a.noLog else b.noLog := by split <;> rfl
-
-set_option maxRecDepth 8000 in
-set_option maxHeartbeats 4000000 in
 theorem reader_new_tie (lim : Option Nat) (st : FileState) (fd : Nat) (hfd : fd ≤ 2147483647)
     (hst : ∀ bs, st = .file bs → (parseHeader bs).inRange) :
     (run (hctx (streamOf (openAnswers lim fd st))) "ShmReader::new" .unit [cstrValue]).noLog
       = .ok (openValue (readerOpenLim lim st)) .unit [] := by
-  have hfd' : (fd : Int) ≤ 2147483647 := by omega
-  have hfd0 : ¬ ((fd : Int) < 0) := by omega
   cases st with
-  | missing =>
-    simp [rs_eval, rs_code, streamOf, openAnswers, cstrValue, readerOpenLim, openValue, shmErrValue, syscallErr,
-      Origin.text, ENOENT]
-  | directory =>
-    simp (config := { maxSteps := 4000000 }) [rs_eval, rs_code, streamOf, openAnswers, cstrValue, readerOpenLim,
-      openValue, shmErrValue, syscallErr, Origin.text, EISDIR, hfd', hfd0, EmbedShm.sizes]
+  | missing => exact reader_new_missing lim fd
+  | directory => exact reader_new_directory lim fd hfd
   | file bs =>
-    obtain ⟨_, _, hs, _, _⟩ := hst bs rfl
-    rw [Proofs.readerOpenLim_eq_prog]
-    have hr0 : ¬ (readRet bs < 0) := by unfold readRet; omega
-    have hr1 : readRet bs ≤ 16 := by unfold readRet HEADER_SIZE; omega
-    have hr2 : (0 : Int) ≤ readRet bs := by omega
-    have hw : readRet bs % 18446744073709551616 = readRet bs := by omega
-    have hlo : (-9223372036854775808 : Int) ≤ readRet bs := by omega
-    have hhi : readRet bs ≤ (9223372036854775807 : Int) := by omega
-    simp only [openAnswers]
-    generalize readRet bs = ret at *
-    generalize parseHeader bs = h at *
-    have hs' : ((h.segsize : Nat) : Int) % 18446744073709551616 = h.segsize := by
-      unfold TWO32 at hs; omega
-    have hsz : ((h.segsize : Nat) : Int) ≤ 18446744073709551615 := by unfold TWO32 at hs; omega
-    by_cases hm : mapFails lim h.segsize = true
-    · simp (config := { maxSteps := 4000000 }) [rs_eval, rs_code, streamOf, cstrValue, hfd', hfd0,
-        EmbedShm.sizes, hm, hr0, hw, hlo, hhi, hs', hsz, headerValue, readProg, mapProg, chkInt, ENOMEM, syscallErr]
-      unfold checkHeader
-      split_ifs <;> simp_all [openValue, shmErrValue, Origin.text, MAGIC0, MAGIC1, HEADER_SIZE, RECORD_SIZE, ENOMEM] <;>
-        omega
-    · simp (config := { maxSteps := 4000000 }) [rs_eval, rs_code, streamOf, cstrValue, hfd', hfd0,
-        EmbedShm.sizes, hm, hr0, hw, hlo, hhi, hs', hsz, headerValue, readProg, mapProg, chkInt, ENOMEM, syscallErr]
-      unfold checkHeader
-      split_ifs <;> simp_all [openValue, shmErrValue, Origin.text, MAGIC0, MAGIC1, HEADER_SIZE, RECORD_SIZE, ENOMEM,
-        freshReaderValue, recordValue, Record.empty, ctimespecValue] <;>
-        first
-        | omega
-        | (have hlt : ¬ (h.segsize < 72) := by omega
-           simp [hlt, DictShm.addr, DictShm.ptrCeb, DictShm.ptrA16, statusValue, statusName])
+    by_cases hm : mapFails lim (parseHeader bs).segsize = true
+    · exact reader_new_file_fails lim bs fd hfd (hst bs rfl) hm
+    · exact reader_new_file_maps lim bs fd hfd (hst bs rfl) (by simpa using hm)
 
 end ClockBound.Rs.HeaderProof
